@@ -188,7 +188,7 @@ _AS_BUILT = {
          'Does not decide list order after arbitrary MoveBefore sequences beyond what the priority table implies.'),
  'C12': ('; MergeWith interpreted on small schemas (mention sequences); TRANSLATE-ONCE call-graph rule; admissible-table evaluation',
          ' As built: r5 is the evaluated merge (every constituent copied and recorded, every mention renamed exactly once), r6 admissible table, r7 TRANSLATE-ONCE (shared C08 r8), r8 TRANSLATION-CLOSED (duplicate elimination interpreted on schemas with chains of duplicates: every erased constituent is mapped to a survivor).',
-         'Correctness and type preservation of the resulting schema are value-level and not decided. r9 NO-LOOP-BY-EQUATION (precheck interpreted over the real graph code) and r10 ADMISSIBILITY-TOTAL decide two further audit findings (repaired). Not decided: termination of the rewriting loop of the typification comparison.'),
+         'Correctness and type preservation of the resulting schema are value-level and not decided. r9 NO-LOOP-BY-EQUATION (precheck interpreted over the real graph code, for the dependency graph and for the term references under each term mode) and r10 ADMISSIBILITY-TOTAL (optional reads and the partial accessors of a typification guarded) decide further audit findings (repaired), r11 HANDOVER-RECREATED decides the second Execute() of a synthesis (repaired), r5 also requires that no generated name gives a dangling mention a meaning (repaired for definitions). Not decided: termination of the rewriting loop of the typification comparison; capture of a dangling *text reference* by a generated name.'),
  'C13': ('; graph closures of the interpreted CGraph (shared C14 r8); admissibility of a selection evaluated over all kinds',
          ' As built: r6 uses the evaluated ExpandInputs/ExpandOutputs/InputsFor/Sort, r7 selection admissibility.',
          'Preservation of correctness status and typification of each copied constituent is value-level and not decided. r8 RENUMBER-FAITHFUL (ResetAliases interpreted on schemas with gaps) decides the renumbering capture (repaired). Not decided: a base set with a definition bypasses the closure test (arguable). The stale-status finding (a loop created by an edit stays VERIFIED) is decided by C07 r6 and repaired.'),
